@@ -117,16 +117,24 @@ def parse_output(out):
             recs_s = d.get("recs", "")
             status = "ok"
             recs = []
-            if recs_s in ("PANIC", "OWNPANIC", "BADCASE"):
-                status = recs_s
+            panic_loc = None
+            if recs_s.split("@")[0] in ("PANIC", "OWNPANIC", "BADCASE"):
+                status = recs_s.split("@")[0]
+                panic_loc = recs_s.split("@", 1)[1] if "@" in recs_s else None
             else:
                 recs = [parse_rec(x) for x in recs_s.split(";") if x]
             call = {"j": int(d["j"]), "scene": int(d["scene"]), "epoch": int(d["epoch"]), "after": int(d["after"]) if "after" in d else None,
                     "dets": [parse_det(x) for x in d.get("dets", "").split(";") if x], "recs": recs, "status": status,
-                    "trk": {}, "fd": dict(pend_fd), "pos": dict(pend_pos)}
+                    "trk": {}, "fd": dict(pend_fd), "pos": dict(pend_pos), "panic_loc": panic_loc, "share": {}}
             pend_fd = defaultdict(dict)
             pend_pos = {}
             cur["calls"].append(call)
+        elif head == "share":
+            p = rest.split()      # k j uid id stored-bits|- feature-stored record-length
+            for call in reversed(cur["calls"]):
+                if call["j"] == int(p[1]):
+                    call["share"][int(p[2])] = {"id": int(p[3]), "bits": None if p[4] == "-" else int(p[4]), "feat": p[5] == "1", "len": int(p[6])}
+                    break
         elif head == "trk":
             p = rest.split()
             t = parse_trk(p[2:])
